@@ -235,9 +235,25 @@ func (c *ServerConn) sendToStream(ctx context.Context, payload []byte) error {
 
 			continue
 		}
+
+		// Send only hands the message to the gRPC layer. A FIN is the
+		// last thing the GBN connection sends before it cancels the
+		// context that this stream was created with, and that resets
+		// the stream: what is still queued then never reaches the
+		// mailbox. Half-closing the stream and waiting for the hashmail
+		// server's answer makes sure that it has taken the FIN.
+		if isGbnFIN(payload) {
+			_, _ = c.sendStream.CloseAndRecv()
+		}
 		c.sendStreamMu.Unlock()
+
 		return nil
 	}
+}
+
+// isGbnFIN returns true if the given serialized GBN packet is a FIN.
+func isGbnFIN(payload []byte) bool {
+	return len(payload) > 0 && payload[0] == gbn.FIN
 }
 
 // ReceiveControlMsg tries to receive a control message over the underlying
